@@ -69,7 +69,9 @@ def mval(v):
         return 'v%d' % v
     if isinstance(v, BaseException):
         return exc_tag(v)
-    return v
+    if isinstance(v, (str, list, tuple, dict)):
+        return v
+    return repr(v)
 
 
 # ---- numbering of CancellableAction objects (harness-side wrapping only) -------------------------
@@ -178,6 +180,22 @@ def ret_tag(r):
     if isinstance(r, pfutures.CancellableAction):
         return 'act:%d' % r._verif_id
     return 'other:%r' % (r,)
+
+
+class ChildProc(plumpy.Process):
+    """A child launched from a workchain step: waits until the environment resumes it, finishes with that value."""
+
+    def run(self):
+        return ps.Wait(self.finish)
+
+    def finish(self, value):
+        self.out('value', value)
+        return value
+
+    @classmethod
+    def define(cls, spec):
+        super().define(spec)
+        spec.outputs.dynamic = True
 
 
 class Recorder(plumpy.ProcessListener):
@@ -289,11 +307,71 @@ def build_class(prog, out_missing=False):
     return outline_real.register(klass)      # importable: bundles identify the class by module and name
 
 
+def build_workchain_class(prog, awt):
+    """Programs with awaitables: a real WorkChain with the linear outline (step1, ..., stepN)."""
+    from plumpy import workchains as wcm
+    ns = {}
+    for idx, d in enumerate(prog):
+        i = idx + 1
+
+        def mk(i=i, d=d):
+            def before(self):
+                self._vlog.append(('step', i, (), (), self.paused, mval(self.status)))
+                self._vlog.append(('ctx', tuple((k, mval(v.get('value')) if isinstance(v, dict) else mval(v))     # child: outputs
+                                               for k, v in self.ctx.__dict__.items()),
+                                   tuple(self._vrun.awaitable_done(j + 1) for j in range(len(awt)))))
+                futs = {}
+                if d['cmd'] == 'await':
+                    futs = {awt[j - 1]: self._vrun.awaitable(j) for j in d['aws']}       # created (children: launched) here
+                self._vhooks.fire(self, 'step')
+                return futs
+
+            def after(self, futs):
+                if d['cmd'] == 'await':
+                    if d['via'] == 'call':
+                        self.to_context(**futs)
+                        return None
+                    return wcm.ToContext(**futs)
+                return None
+
+            if d['kind'] == 'sync':
+                def fn(self):
+                    return after(self, before(self))
+            else:
+                async def fn(self):
+                    futs = before(self)
+                    for _ in range(d['n']):
+                        await asyncio.sleep(0)
+                    return after(self, futs)
+            fn.__name__ = 'step%d' % i
+            return fn
+        ns['step%d' % i] = mk()
+
+    def define(cls, spec):
+        super(klass, cls).define(spec)
+        spec.outputs.dynamic = True
+        spec.inputs.dynamic = True
+        spec.outline(*[getattr(cls, 'step%d' % (k + 1)) for k in range(len(prog))])
+    ns['define'] = classmethod(define)
+
+    def mk_hook(name):
+        def override(self, *a, **k):
+            getattr(super(klass, self), name)(*a, **k)
+            self._vhooks.fire(self, name)
+        override.__name__ = name
+        return override
+    for h in USER_HOOKS:
+        ns[h] = mk_hook(h)
+    klass = type('GenWorkChain', (wcm.WorkChain,), ns)
+    from . import outline_real
+    return outline_real.register(klass)
+
+
 class Run:
     """One execution of the real implementation, driven action by action."""
 
     def __init__(self, prog, plan=(), out_missing=False, medium='pickle', listener=True, check_roundtrip=False,
-                 inputs=None):
+                 inputs=None, awt=(), children=False):
         del _ACTS[:]
         self.loop = vloop.install()
         self.log = []
@@ -303,15 +381,68 @@ class Run:
         self.snap = None
         self.check_roundtrip = check_roundtrip
         self.roundtrips = 0
-        cls = build_class(prog, out_missing)
+        self.awt = list(awt)
+        self.futs = {}
+        self.child_tasks = set()
+        self.use_children = children
+        cls = build_workchain_class(prog, self.awt) if self.awt else build_class(prog, out_missing)
         self.cls = cls
         self.proc = p = cls(inputs=inputs) if inputs is not None else cls()
         self.use_listener = listener
         self._attach(p)
 
+    # ---- awaitables (futures completed by the environment, or child processes launched by the step) ----
+    def awaitable(self, j):
+        if j not in self.futs:
+            if self.use_children:
+                before = len(self.loop.tasks)
+                child = self.proc.launch(ChildProc)
+                self.child_tasks.update(self.loop.tasks[before:])
+                self.futs[j] = child
+            else:
+                self.futs[j] = self.loop.create_future()
+        return self.futs[j]
+
+    def _fut(self, j):
+        f = self.futs.get(j)
+        return f.future() if isinstance(f, plumpy.Process) else f
+
+    def awaitable_done(self, j):
+        f = self._fut(j)
+        return bool(f is not None and f.done())
+
+    def complete(self, j, kind, val):
+        f = self.futs[j]
+        if isinstance(f, plumpy.Process):
+            if kind == 'ok':
+                f.resume(val)
+            else:
+                f.fail(Injected(val), None)
+        elif kind == 'ok':
+            f.set_result(val)
+        else:
+            f.set_exception(Injected(val))
+        self.log.append(('complete', j, kind, val))
+        self.run_children()
+        self.settle()
+
+    def run_children(self):
+        """Children are other processes: their own callbacks are not steps of the process under test.  Run them to
+        quiescence wherever they sit in the ready queue (the model completes an awaitable in one environment step)."""
+        while True:
+            for h in list(self.loop.ready):
+                if vloop.owner_of(h) in self.child_tasks and not h._cancelled:
+                    self.loop.ready.remove(h)
+                    self.loop.ready.appendleft(h)
+                    self.loop.step_one()
+                    break
+            else:
+                return
+
     def _attach(self, p):
         """Harness-side wiring of a (new or restored) process instance; nothing here is persisted."""
         _CURRENT[0] = p
+        p._vrun = self
         p._vlog = self.log
         p._vhooks = self.hooks
         if self.use_listener:
@@ -379,6 +510,11 @@ class Run:
         if owner in self.cb_tasks:
             return 'cb' + self.cb_tasks[owner]
         q = getattr(h._callback, '__qualname__', '')
+        if q.endswith('Waiting._awaitable_done') and getattr(h._callback, '__self__', None) is not None \
+                and h._callback.__self__.process is self.proc:
+            for j in self.futs:
+                if self._fut(j) is h._args[0]:
+                    return 'aw%d' % j
         if 'try_killing' in q:
             fut = h._args[0] if h._args else None
             return 'trykill' if fut is not None and fut.cancelled() else 'noise'
@@ -386,6 +522,8 @@ class Run:
 
     def settle(self):
         """Run leading handles that have no counterpart in the specification (noise)."""
+        if self.child_tasks:
+            self.run_children()
         while True:
             h = self.loop.peek()
             if h is None or self.classify(h) != 'noise':
@@ -407,6 +545,9 @@ class Run:
         return kind
 
     def _after_handle(self):
+        while self.loop.errors:             # exceptions raised inside loop callbacks (reported to the loop's handler)
+            ctx = self.loop.errors.pop(0)
+            self.log.append(('looperr', exc_tag(ctx.get('exception'))))
         if self.task.done() and not self.task_reported:
             self.task_reported = True
             e = None if self.task.cancelled() else self.task.exception()
